@@ -154,12 +154,12 @@ type meterWriter struct {
 	failAt int // fail the k-th Write (1-based); 0 never
 	err    string
 	after  int // writes attempted after the failure
-	short  bool
+	once   bool // only the failAt-th write fails; later writes succeed again
 }
 
 func (w *meterWriter) Write(p []byte) (int, error) {
 	w.writes++
-	if w.failAt > 0 && w.writes >= w.failAt {
+	if w.failAt > 0 && w.writes >= w.failAt && !(w.once && w.writes > w.failAt) {
 		if w.writes > w.failAt {
 			w.after++
 		}
@@ -395,9 +395,13 @@ func opWFaults(it item, e *core.Emitter) any {
 	if ferr != nil {
 		base["clean_err"] = ferr.Error()
 	}
-	for j := it.From + 1; j <= total; j++ {
+	start := it.From
+	if start < 1 {
+		start = 1
+	}
+	for j := start; j <= total; j++ {
 		e.Sub(j)
-		w := &meterWriter{failAt: j, err: it.Err}
+		w := &meterWriter{failAt: j, err: it.Err, once: it.How == "once"}
 		var r wfRes
 		a0 := allocBytes()
 		r.Outcome, r.Site = core.Guard(func() {
